@@ -34,6 +34,15 @@ func judgeIndep(c *CheckCtx, rn Runner, ic *indepCase) *Violation {
 		l := hostLines[ic.Line-1]
 		indent = l[:len(l)-len(strings.TrimLeft(l, " \t"))]
 	}
+	// raise and return end the enclosing method: inside a method body they
+	// change what it returns, which is no interference. They are judged at top
+	// level only (generated and sensitive hosts, whose layout shows the nesting)
+	if ic.FragKind == "raise" || ic.FragKind == "return-in-block" {
+		if indent != "" || ic.Origin == "corpus" {
+			c.Event("skipped_raise_or_return_inside_a_body", 1)
+			return nil
+		}
+	}
 	var merged []string
 	merged = append(merged, hostLines[:ic.Line-1]...)
 	for _, fl := range fragLines {
@@ -131,10 +140,10 @@ var closerRe = regexp.MustCompile(`^\s*(end|else|elsif|when|in|rescue|ensure|\}|
 // fragment generates an independent fragment and a kind label.
 func genFragment(r *RNG) (string, string) { return genFragmentKind(r, "") }
 
-var fragmentKinds = []string{"assign", "conditional", "narrowing", "block", "array", "union-call", "while", "case", "mixed", "modifier-if", "modifier-unless", "modifier-while", "ends-with-builtin-block", "ends-with-call"}
+var fragmentKinds = []string{"assign", "conditional", "narrowing", "block", "array", "union-call", "while", "case", "mixed", "modifier-if", "modifier-unless", "modifier-while", "ends-with-builtin-block", "ends-with-call", "union-operator", "raise", "return-in-block"}
 
 func genFragmentKind(r *RNG, forced string) (string, string) {
-	kinds := []string{"assign", "conditional", "narrowing", "block", "array", "union-call", "while", "case", "mixed", "modifier-if", "modifier-unless", "modifier-while", "ends-with-builtin-block", "ends-with-call", "mixed"}
+	kinds := []string{"assign", "conditional", "narrowing", "block", "array", "union-call", "while", "case", "mixed", "modifier-if", "modifier-unless", "modifier-while", "ends-with-builtin-block", "ends-with-call", "mixed", "union-operator", "raise", "return-in-block"}
 	kind := Pick(r, kinds)
 	if forced != "" {
 		kind = forced
@@ -162,6 +171,21 @@ func genFragmentKind(r *RNG, forced string) (string, string) {
 		lines = []string{"zq1 = [1, \"a\", 2.5]", "zq2 = zq1[0]", "zq1.push(:s)"}
 	case "union-call":
 		lines = []string{"zq0 = true", "zq1 = zq0 ? 1 : \"s\"", "zq2 = zq1.to_s", "zq3 = zq1.nil?"}
+	case "union-operator":
+		// a builtin operator on a union whose members answer it with different classes
+		op := Pick(r, []string{"*", "+", "-"})
+		switch op {
+		case "*":
+			lines = []string{"zq0 = true", "zq1 = zq0 ? 7 : \"seven\"", "zq2 = zq1 * 2"}
+		case "+":
+			lines = []string{"zq0 = true", "zq1 = zq0 ? 7 : 2.5", "zq2 = zq1 + 2"}
+		default:
+			lines = []string{"zq0 = true", "zq1 = zq0 ? 7 : 2.5", "zq2 = zq1 - 1", "zq3 = zq1.to_s"}
+		}
+	case "raise":
+		lines = []string{"zq1 = 0", Pick(r, []string{"raise \"bad level\" if zq1 == 1", "raise ArgumentError if zq1 > 5", "raise \"never\" unless zq1 == 0"})}
+	case "return-in-block":
+		lines = []string{"[1, 2].each do |zq1|", "  return zq1 if zq1 > 5", "end"}
 	case "modifier-if":
 		lines = []string{"zq1 = 1", "zq2 = \"s\" if zq1 > 0"}
 	case "modifier-unless":
@@ -195,7 +219,7 @@ func init() {
 			return judgeIndep(c, s.BlackBox(), &ic)
 		},
 		Run: func(c *CheckCtx) {
-			c.rule = "triples (host, fragment, boundary): hosts are corpus and generated programs; fragments use only identifiers with a reserved prefix, define no methods or classes and touch no builtin class (assignments of every literal type, conditionals with and without narrowing, blocks, array literals, builtin calls on unions, while, case, generated mixes); the fragment is inserted before a statement that has a successor-or-self in the same body (top level and nested boundaries), or a whole independent program is appended. Oracle: host output (plain and -i) restricted to the host's own rows and mapped back equals the output without the fragment. distinct_nontrivial = distinct triples whose host run printed located records"
+			c.rule = "triples (host, fragment, boundary): hosts are corpus and generated programs; fragments use only identifiers with a reserved prefix, define no methods or classes and touch no builtin class (assignments of every literal type, conditionals with and without narrowing, blocks, array literals, builtin calls and operators on unions, while, case, top-level raise, return inside a block, generated mixes); the fragment is inserted before a statement that has a successor-or-self in the same body (top level and nested boundaries), or a whole independent program is appended. Oracle: host output (plain and -i) restricted to the host's own rows and mapped back equals the output without the fragment. distinct_nontrivial = distinct triples whose host run printed located records"
 			c.assumptions = []string{"triples in which a run crashes or hangs are skipped (C01/C02)"}
 			items := Corpus()
 			r := c.RNG.Sub(11)
@@ -258,8 +282,10 @@ func init() {
 				"hy = hx.nil? ? 1 : 2\ndbtp hy", "dbtp hm(1)", "-1.abs", "[3, \"q\"].each { |hz| dbtp hz }", "(1..2).each do |hr|\n  dbtp hr\nend", ":sym.to_s", "\"str\".upcase",
 				"hv = !hf\ndbtp hv", "case hn\nwhen 1\n  dbtp hn\nelse\n  dbtp hx\nend", "while hn < 1\n  hn = hn + 1\nend\ndbtp hn", "hh = {a: 1}\ndbtp hh[:a]", "ha = [1, \"s\"]\ndbtp ha[0]",
 				"hx.zork", "hn + \"s\"", "ho = Hbox.new\ndbtp ho.get", "dbtp Hbox.make", "hw = hu\ndbtp hw", "return_free = 1\ndbtp return_free",
+				// builtin operators on a union receiver, a method defined right here
+				"dbtp hk * 2", "hq = hk + 1\ndbtp hq", "dbtp hx.to_s", "def hlabel(hp)\n  hp.to_s\nend\ndbtp hlabel(hn)",
 			}
-			prelude := "hf = true\nhx = hf ? \"a\" : 1\nhu = hf ? [1] : (1..2)\nhn = 0\ndef hm(a)\n  a\nend\nclass Hbox\n  def get\n    1.5\n  end\n  def self.make\n    :m\n  end\nend\n"
+			prelude := "hf = true\nhx = hf ? \"a\" : 1\nhu = hf ? [1] : (1..2)\nhn = 0\nhk = hf ? 3 : 2.5\ndef hm(a)\n  a\nend\nclass Hbox\n  def get\n    1.5\n  end\n  def self.make\n    :m\n  end\nend\n"
 			// every (sensitive statement, fragment kind) pair is covered in each pass
 			passes := c.N(3, 24)
 			total := passes * len(sens) * len(fragmentKinds)
@@ -272,14 +298,20 @@ func init() {
 				var starts []int
 				inDef := r.Chance(1, 4)
 				ind := ""
+				if inDef && strings.HasPrefix(forcedStmt, "def ") {
+					inDef = false // a method is defined at top level
+				}
 				if inDef {
-					sb.WriteString("def hwrap(hx, hu, hn, hf)\n")
+					sb.WriteString("def hwrap(hx, hu, hn, hf, hk)\n")
 					ind = "  "
 				}
 				target := r.Intn(n)
 				for q := 0; q < n; q++ {
 					starts = append(starts, strings.Count(sb.String(), "\n")+1)
 					st := Pick(r, sens)
+					for inDef && strings.HasPrefix(st, "def ") {
+						st = Pick(r, sens)
+					}
 					if q == target {
 						st = forcedStmt
 					}
@@ -288,7 +320,7 @@ func init() {
 					}
 				}
 				if inDef {
-					sb.WriteString("  nil\nend\nhwrap(hx, hu, hn, hf)\n")
+					sb.WriteString("  nil\nend\nhwrap(hx, hu, hn, hf, hk)\n")
 				}
 				host := sb.String()
 				hl := strings.Split(host, "\n")
